@@ -19,7 +19,7 @@ vars == <<kind, req, which>>
 
 Int_ == [type |-> <<"integer">>]
 Str_ == [type |-> <<"string">>]
-SA == JStr(<<"a">>)  SB == JStr(<<"b", "qt", "bs", "e2">>)   \* a, b"\é
+SA == JStr(<<"a">>)  SB == JStr(<<"b", "qt", "bs", "e2", "pc", "a">>)   \* a, b"\é%a  (quote, backslash, non-ASCII, a printf verb)
 
 \* kind -> [s: schema without default, vals: two valid values (either can be the default), dev: deviation
 \*          that predicts the program not to compile ("" = compiles), opts]
